@@ -9,8 +9,9 @@ the real sampler enumerates its whole (cell, u) space.
              value alphabet (not all zero): captured p = exact cell masses of the piecewise-linear
              interpolant; sample = x_i + inverse CDF of the linear density on the cell at u; inside
              the grid.
-* cond     – get_conditionals on a catalogue {separable, correlated rho=.9, skewed} x scales x
-             bounds x conditioning points x grid sizes: shape, grid inside the bounds, coverage of
+* cond     – get_conditionals on a catalogue {separable, correlated rho=.9, skewed} x scales
+             (1e-9 .. 1e9, thorough 1e-12 .. 1e12) x location of the distribution (centre 0, +-1e3
+             scales from the origin, thorough +-1e6) x bounds x conditioning points x grid sizes: shape, grid inside the bounds, coverage of
              the part above 1e-3 of the peak, table proportional to the true conditional through the
              point, normalisation against exact quadrature.
 * csample  – conditional_sample with the scripted generator: every cell x u of every parameter's
@@ -145,7 +146,7 @@ def ev_pls(case):
 
 # ----------------------------------------------------------------------------- get_conditionals
 def build_cond_case(case):
-    fam = R.make_family(case["family"], case["s"])
+    fam = R.make_family(case["family"], case["s"], case.get("loc", 0.0))
     d = fam.d
     mode = fam.mode()
     sig = fam.sig()
@@ -211,18 +212,35 @@ def integrate(f, fref, a, b, m, w):
 
     if b <= a:
         return 0.0
+    # far from the origin the standardised coordinate (x - centre)/width carries the rounding eps*|x|/width, and so does f:
+    # asking the quadrature for more than that only produces warnings
+    epsrel = max(1e-13, 16 * EPS * max(abs(a), abs(b)) / w)
     pts = sorted({min(max(m + k * w, a), b) for k in (-8, -4, -2, -1, 0, 1, 2, 4, 8)} | {a, b})
     tot = 0.0
     for p, q in zip(pts[:-1], pts[1:]):
         if q > p:
-            v, _ = quad(lambda z: math.exp(f(z) - fref), p, q, epsabs=0.0, epsrel=1e-13, limit=200)
+            v, _ = quad(lambda z: math.exp(f(z) - fref), p, q, epsabs=0.0, epsrel=epsrel, limit=200)
             tot += v
     return tot
 
 
-def check_conditional(i, xg, yg, lo, hi, f, m, w, grid_size, fails, slack, details):
+def config_class(case):
+    """key component naming the part of the lattice a case belongs to: '' for the original lattice (scale within 1e+-3, centred
+    within a few widths of the origin), else the direction in which the scale / location is extreme - a defect that only shows at
+    such scales (absolute tolerances, absolute steps) is a different defect from one seen on the ordinary lattice"""
+    s, loc = case["s"], case.get("loc", 0.0)
+    parts = []
+    if s < 1e-3:
+        parts.append("tiny-scale")
+    elif s > 1e3:
+        parts.append("huge-scale")
+    if loc != 0.0:
+        parts.append("far-location")
+    return "".join("/" + p for p in parts)
+
+
+def check_conditional(i, xg, yg, lo, hi, f, m, w, grid_size, fails, slack, details, pre="cond"):
     """all clauses of the statement for one returned conditional"""
-    pre = "cond"
     if xg.shape != (grid_size,) or yg.shape != (grid_size,):
         fails.append(fail(f"{pre}/shape", f"variable {i}: shapes {xg.shape},{yg.shape} for grid_size {grid_size}", **details))
         return
@@ -297,21 +315,22 @@ def ev_cond(case):
     gs = case["grid_size"]
     fails, slack = [], {}
     details = {"bounds": bounds, "conditioning_point": c.tolist()}
+    pre = "cond" + config_class(case)
     c_in = c.copy()
     with lib("get_conditionals"):
         axes, probs = get_conditionals(posterior=fam, bounds=[tuple(b) for b in bounds], conditioning_point=c_in, grid_size=gs)
     axes, probs = np.asarray(axes), np.asarray(probs)
     if axes.shape != (gs, fam.d) or probs.shape != (gs, fam.d):
-        fails.append(fail("cond/shape", f"axes {axes.shape}, probs {probs.shape}, expected {(gs, fam.d)}", **details))
+        fails.append(fail(f"{pre}/shape", f"axes {axes.shape}, probs {probs.shape}, expected {(gs, fam.d)}", **details))
         return {"fails": fails, "n": 1}
     tags = set()
     for i in range(fam.d):
         f, m, w = info[i]
         lo, hi = bounds[i]
-        check_conditional(i, axes[:, i], probs[:, i], lo, hi, f, m, w, gs, fails, slack, details)
+        check_conditional(i, axes[:, i], probs[:, i], lo, hi, f, m, w, gs, fails, slack, details, pre=pre)
         at_lo, at_hi = axes[0, i] == lo, axes[-1, i] == hi
         met = (hi - lo) / 15.0 < 4 * w
-        tags.add(f"{case['family']},s={case['s']},bounds={case['bounds']},cp={case['cp']},grid-ends-at-bound={bool(at_lo)}/{bool(at_hi)},met-by-16pt-search={met}")
+        tags.add(f"{case['family']},s={case['s']},loc={case.get('loc', 0.0)},bounds={case['bounds']},cp={case['cp']},grid-ends-at-bound={bool(at_lo)}/{bool(at_hi)},met-by-16pt-search={met}")
     return {"fails": fails, "n": 1, "tags": tags, "slack": slack,
             "sample": {"case": case, "bounds": bounds, "axis0": axes[:3, 0].tolist(), "prob0": probs[:3, 0].tolist()}}
 
@@ -322,6 +341,7 @@ def ev_csample(case):
     try:
         fails, slack, tags = [], {}, set()
         details = {"bounds": bounds, "conditioning_point": c.tolist()}
+        pre = "csample" + config_class(case)
         with lib("get_conditionals"):
             axes, probs = C.get_conditionals(posterior=fam, bounds=[tuple(b) for b in bounds], conditioning_point=c.copy())
         gs = axes.shape[0]
@@ -330,7 +350,7 @@ def ev_csample(case):
             S = C.conditional_sample(posterior=fam, bounds=[tuple(b) for b in bounds], conditioning_point=c.copy(), n_samples=ns)
         S = np.asarray(S)
         if S.shape != (ns, fam.d):
-            fails.append(fail("csample/shape", f"shape {S.shape}, expected {(ns, fam.d)}", **details))
+            fails.append(fail(f"{pre}/shape", f"shape {S.shape}, expected {(ns, fam.d)}", **details))
             return {"fails": fails, "n": 1}
         if len(stub.p_log) != fam.d:
             raise HarnessError(f"expected one choice call per parameter, saw {len(stub.p_log)}")
@@ -340,17 +360,17 @@ def ev_csample(case):
             bad = ~((col >= lo) & (col <= hi))  # also catches nan
             if bad.any():
                 j = int(np.nonzero(bad)[0][0])
-                fails.append(fail("csample/outside-bounds", f"parameter {i}: sample {float(col[j])!r} outside [{lo!r},{hi!r}] "
+                fails.append(fail(f"{pre}/outside-bounds", f"parameter {i}: sample {float(col[j])!r} outside [{lo!r},{hi!r}] "
                                   f"(cell {int(stub.idx_log[i][j])}, u={stub.u_log[i][j]})", **details))
             m = R.cell_masses(axes[:, i], probs[:, i])
             e = float(np.abs(stub.p_log[i] - m).max())
             slack["csample cell mass"] = max(slack.get("csample cell mass", 0.0), e / (8 * gs * EPS))
             if e > 8 * gs * EPS:
-                fails.append(fail("csample/cell-mass", f"parameter {i}: cell probabilities differ from the interpolant of the table by {e:.3g}", **details))
+                fails.append(fail(f"{pre}/cell-mass", f"parameter {i}: cell probabilities differ from the interpolant of the table by {e:.3g}", **details))
             idx, u = stub.idx_log[i], stub.u_log[i]
             ok = m[idx] > 0
-            check_draws(axes[:, i], probs[:, i], col[ok], idx[ok], u[ok], "csample", fails, slack, details)
-            tags.add(f"csample {case['family']},s={case['s']},bounds={case['bounds']},cp={case['cp']},cells={int((m > 0).sum())}")
+            check_draws(axes[:, i], probs[:, i], col[ok], idx[ok], u[ok], pre, fails, slack, details)
+            tags.add(f"csample {case['family']},s={case['s']},loc={case.get('loc', 0.0)},bounds={case['bounds']},cp={case['cp']},cells={int((m > 0).sum())}")
         return {"fails": fails[:20], "n": 2, "tags": tags, "slack": slack}
     finally:
         C.rng = old
@@ -360,6 +380,13 @@ EVALUATORS = {"pls": ev_pls, "cond": ev_cond, "csample": ev_csample}
 
 FAMS = ["separable", "correlated", "skewed"]
 SCALES = [1e-3, 1.0, 1e3]
+# scales far from 1 in both directions (an absolute tolerance or step anywhere in the search shows up at one end or the other)
+SCALES_FAR = [1e-6, 1e6, 1e-9, 1e9]
+# location of the whole distribution in units of the scale: every coordinate shifted by loc * s (centre 1e3 widths from the origin)
+LOCS = [0.0, 1e3, -1e3]
+# thorough tier only
+SCALES_FAR_MORE = [1e-12, 1e12]
+LOCS_MORE = [1e6, -1e6]
 BOUNDS = ["wide", "clip-hi", "clip-lo", "clip-past-mode", "cp-on-node"]
 CPS = ["mode", "off+", "off-"]
 
@@ -391,44 +418,59 @@ def run(ck):
     ck.run_cases("pls", cases)
     # ---- get_conditionals
     ccases = []
+    far = SCALES_FAR if quick else SCALES_FAR + SCALES_FAR_MORE
+    locs = LOCS if quick else LOCS + LOCS_MORE
+    # the original lattice first (simplest first), then every scale x every location
+    blocks = [(0.0, SCALES)] + [(loc, SCALES + far) for loc in locs]
     Ws = [12.0, 400.0]
     gss = [64, 128, 33]
     k = 0
-    for famn in FAMS:
-        for s in SCALES:
-            for bk in BOUNDS:
-                for cp in CPS + ["far"]:
-                    for W in Ws:
-                        if cp == "far" and W != 12.0:
-                            continue
-                        k += 1
-                        gsl = gss if not quick else [gss[(seed + k) % 3]]
-                        for gs in gsl:
-                            ccases.append({"family": famn, "s": s, "bounds": bk, "cp": cp, "W": W, "grid_size": gs})
+    for loc, scales in blocks:
+        for famn in FAMS:
+            for s in scales:
+                if loc == 0.0 and scales is not SCALES and s in SCALES:
+                    continue  # already listed (the original lattice comes first: simplest first)
+                for bk in BOUNDS:
+                    for cp in CPS + ["far"]:
+                        for W in Ws:
+                            if cp == "far" and W != 12.0:
+                                continue
+                            k += 1
+                            gsl = gss if not quick else [gss[(seed + k) % 3]]
+                            for gs in gsl:
+                                ccases.append({"family": famn, "s": s, "loc": loc, "bounds": bk, "cp": cp, "W": W, "grid_size": gs})
     ck.run_cases("cond", ccases, chunk=1)
     # ---- conditional_sample
     scases = []
     k = 0
-    for famn in FAMS:
-        for s in SCALES:
-            for bk in BOUNDS:
-                for cp in CPS + ["far"]:
-                    k += 1
-                    Wl = Ws if not quick else [Ws[(seed + k) % 2]]
-                    if cp == "far":
-                        Wl = [12.0]
-                    for W in Wl:
-                        scases.append({"family": famn, "s": s, "bounds": bk, "cp": cp, "W": W})
+    for loc, scales in blocks:
+        for famn in FAMS:
+            for s in scales:
+                if loc == 0.0 and scales is not SCALES and s in SCALES:
+                    continue
+                for bk in BOUNDS:
+                    for cp in CPS + ["far"]:
+                        k += 1
+                        Wl = Ws if not quick else [Ws[(seed + k) % 2]]
+                        if cp == "far":
+                            Wl = [12.0]
+                        for W in Wl:
+                            scases.append({"family": famn, "s": s, "loc": loc, "bounds": bk, "cp": cp, "W": W})
     ck.run_cases("csample", scases, chunk=1)
     ck.rule = (
         "pls: every ascending grid of 2..5 (thorough: 2..6) nodes with spacings in {.5,1,2,7} (uniform and non-uniform; quick: half of the 5-node grids by seed parity; origin in {0,-3.25,1000}, "
         "rotated by seed in the quick tier) x every table over {0,1,3,10} not all zero (plus nearly flat tables straddling |dh|=1e-5 and tables rescaled by 1e-6/1e6); "
         "per call the scripted generator enumerates every positive-probability cell x u in {0,.01,.25,.5,.75,.99}. "
-        "cond/csample: {separable d=3, correlated rho=.9, skewed} x scales {1e-3,1,1e3} x bounds {wide, clip-hi, clip-lo, clip-past-mode, "
+        "cond/csample: {separable d=3, correlated rho=.9, skewed} x scales {1e-3,1,1e3,1e-6,1e6,1e-9,1e9} (thorough: also 1e-12,1e12) x location of the whole distribution "
+        "{0, +1e3, -1e3} scales from the origin (thorough: also +-1e6) x bounds {wide, clip-hi, clip-lo, clip-past-mode, "
         "cp-on-node} x conditioning point {mode, off+, off-, far (5 marginal widths off, half-width 12 only)} x bound half-width {12,400} conditional widths x grid_size {64,128,33}. "
-        "A case is distinct by (nodes, uniform?, zero-mass cell, zero end value, flat, nearly flat) or by (family, scale, bounds, cp, grid touching a bound, met by the 16-point search)."
+        "A case is distinct by (nodes, uniform?, zero-mass cell, zero end value, flat, nearly flat) or by (family, scale, location, bounds, cp, grid touching a bound, met by the 16-point search). Failures outside the original lattice (scale within 1e+-3, location 0) carry their own key "
+        "component (tiny-scale / huge-scale / far-location)."
     )
     ck.assume("piecewise_linear_sample draws its cells with rng.choice(p=...) and its within-cell uniforms with rng.random/uniform of the module-level generator (one call each per invocation)")
     ck.assume("tables and grids are the listed finite alphabets; u alphabet {0,.01,.25,.5,.75,.99}")
     ck.assume("posteriors: 3 smooth log-concave families, conditioning coordinate within 2 log-units of the conditional's peak, or (cp=far) a search node within one width of the peak; 'small fraction of its peak' is taken as 1e-3")
+    ck.assume("'any scales': every length of the posterior (widths, centre, bounds, conditioning point) is multiplied by s in {1e-9..1e9} (thorough 1e-12..1e12) and the whole distribution is "
+              "shifted by loc*s with |loc| <= 1e3 (thorough 1e6), i.e. the centre is at most 1e6 widths from the origin, where a double still resolves 1e-10 of a width; all oracles are relative to the "
+              "width of the conditional, none has an absolute length tolerance")
     ck.assume("'normalised' accepts normalisation over the grid range or over the bounds, to within 4x the larger of the Simpson/trapezium quadrature errors on the returned grid")
